@@ -18,14 +18,14 @@ import (
 const modPath = "github.com/biogo/biogo"
 
 type Program struct {
-	Repo      string
-	Fset      *token.FileSet
-	Pkgs      []*packages.Package
-	SSA       *ssa.Program
-	Contracts *ContractSet
-	FuncByKey map[string]*ssa.Function
-	pkgByPath map[string]*packages.Package
-	pkgByName map[string]*types.Package
+	Repo       string
+	Fset       *token.FileSet
+	Pkgs       []*packages.Package
+	SSA        *ssa.Program
+	Contracts  *ContractSet
+	FuncByKey  map[string]*ssa.Function
+	pkgByPath  map[string]*packages.Package
+	pkgByName  map[string]*types.Package
 	pkgsByName map[string][]*types.Package
 }
 
